@@ -709,6 +709,18 @@ fn drive(schema_src: &str, exec_src: &str) -> Report {
         Some(Err(e)) => r.diagnostics("Schema::parse_and_validate", &e.errors),
         _ => {}
     }
+    // ---- several sources: the same schema text as two files (every definition of the second file
+    // collides with the first, so both files carry diagnostics at interleaving offsets)
+    match r.step("SchemaBuilder(two sources)", || Schema::builder().parse(schema_src, "a.graphql").parse(schema_src, "b.graphql").build()) {
+        Some(Err(e)) => {
+            r.diagnostics("SchemaBuilder(two sources)", &e.errors);
+            match r.step("validate(two sources)", || e.partial.validate()) {
+                Some(Err(e2)) => r.diagnostics("validate(two sources)", &e2.errors),
+                _ => {}
+            }
+        }
+        _ => {}
+    }
     // ---- the full introspection query against the schema
     if let Some(schema) = &valid_schema {
         match r.step("introspection:parse_and_validate", || ExecutableDocument::parse_and_validate(schema, INTROSPECTION, "introspection.graphql")) {
